@@ -43,6 +43,9 @@ def main():
         print(__doc__); sys.exit(2)
 
     os.makedirs(SCRATCH, exist_ok=True)
+    sim_snapshot = os.path.join(SCRATCH, "mutant-sim-snapshot")
+    sh(["rm", "-rf", sim_snapshot])
+    sh(["cp", "-r", os.path.join(ROOT, "sim"), sim_snapshot])
     wt = os.path.join(SCRATCH, "mutant-tree")
     target = os.path.join(SCRATCH, "mutant-target")
     results = []
@@ -69,7 +72,7 @@ def main():
             entry["baseline"] = {"passed": int(mm.group(2)), "failed": int(mm.group(3))} if mm else {"error": r.stdout[-800:]}
         outcome = {}
         for p in props:
-            env = dict(os.environ, VERIF_REPO=wt, VERIF_TARGET=target)
+            env = dict(os.environ, VERIF_REPO=wt, VERIF_TARGET=target, VERIF_SIM_DIR=sim_snapshot, VERIF_OUT_TAG="mutants")
             r = sh([os.path.join(ROOT, "check"), p, "--tier", tier, "--no-evidence"] + extra, env=env, cwd=ROOT)
             sigs = re.findall(r"VIOLATION property=(\S+) replay=(\S+)", r.stdout)
             outcome[p] = {"exit": r.returncode, "violations": [os.path.basename(s[1])[:-5] for s in sigs]}
